@@ -283,6 +283,9 @@ class Node(ModelElement):
         :param kwargs:
         :return:
         """
+        if kwargs.get('name') is not None:
+            # as set_property('name') / rename(): the new name must be free in the element's scope
+            self._check_name_unique(kwargs['name'])
         kwargs = self._complete_image_pair(kwargs)
         node_sliver = NodeSliver()
         node_sliver.set_properties(**kwargs)
